@@ -3,6 +3,7 @@
 package t38
 
 import (
+	"strings"
 	"bufio"
 	"errors"
 	"fmt"
@@ -143,7 +144,17 @@ type Conn struct {
 
 // Dial connects to a server.
 func Dial(addr string) (*Conn, error) {
-	c, err := net.DialTimeout("tcp", addr, 5*time.Second)
+	// drivers that start tens of thousands of servers run the machine out of ephemeral ports for a moment
+	// ("cannot assign requested address"): wait for ports to come back instead of failing
+	var c net.Conn
+	var err error
+	for try := 0; try < 100; try++ {
+		c, err = net.DialTimeout("tcp", addr, 5*time.Second)
+		if err == nil || !strings.Contains(err.Error(), "cannot assign requested address") {
+			break
+		}
+		time.Sleep(100 * time.Millisecond)
+	}
 	if err != nil {
 		return nil, err
 	}
